@@ -64,30 +64,42 @@ Section REQUEST.
 End REQUEST.
 
 (* ---------------------------------------------------------------- generated case files
-   hdr / query: the texts of the request; status: the HTTP status of the real route (Influx route) or 0 when only the
-   middleware ran; obs_ttl / obs_prec: TTL_DAYS and precision found in the request context afterwards (precision None:
-   none was set); want_*: what the generator wrote the texts from (None: a text outside the written classes) *)
+   hdr / query: the texts of the request; influx = true: the request went through the real Influx route (status = its HTTP
+   status, rows = the (timestamp, TTL) of the sample rows its insert service received), false: only the middleware ran;
+   obs_ttl / obs_prec: TTL_DAYS and precision found in the request context afterwards (precision None: none was set);
+   want_*: what the generator wrote the texts from (None: a text outside the written classes / a refused request) *)
 Record ocase := OC { oc_id : Z; oc_hdr : string; oc_query : string; oc_influx : bool; oc_status : Z;
-                     oc_obs_ttl : N; oc_obs_prec : option Z; oc_stored : Z;
-                     oc_want_ttl : option N; oc_want_prec : option (option Z) }.
-Definition on_eqb (a b : option N) : bool :=
-  match a, b with Some x, Some y => (x =? y)%N | None, None => true | _, _ => false end.
+                     oc_obs_ttl : N; oc_obs_prec : option Z; oc_lines : list iline; oc_rows : list (Z * N);
+                     oc_want_ttl : option N; oc_want_prec : option Z; oc_want_rows : option (list (Z * N)) }.
+Fixpoint zn_eqb (a b : list (Z * N)) : bool :=
+  match a, b with
+  | [], [] => true
+  | (x, m) :: a', (y, n) :: b' => (x =? y) && (m =? n)%N && zn_eqb a' b'
+  | _, _ => false
+  end.
+(* the model of the route on the case's texts and lines, projected on what the harness observes of the stored rows; the
+   fingerprint and the cache do not matter for this projection, lines carry their own timestamps (no clock reading) *)
+Definition oc_model_rows (c : ocase) : option (list (Z * N)) :=
+  match influx_request (fun _ => 0%N) (fun _ => 0) unit miss_cache tt THRESHOLD FLUSH_LIMIT (oc_hdr c) (oc_query c) (CK 0 0 []) (oc_lines c) with
+  | Parsed (Done cs) => Some (map (fun r => (r_ts r, r_ttl r)) (rows_of cs))
+  | _ => None
+  end.
+Definition accepted (c : ocase) : bool := (200 <=? oc_status c) && (oc_status c <? 300).
 Definition oc_mismatch (c : ocase) : bool :=
   negb (N.eqb (ttl_of_header (oc_hdr c)) (oc_obs_ttl c)) ||
   (oc_influx c &&
-   match precision_of_query (oc_query c) with
-   | None => negb ((oc_status c =? 400) && oz_eqb (oc_obs_prec c) None && (oc_stored c =? 0))
-   | Some p => negb ((oc_status c =? 204) && oz_eqb (oc_obs_prec c) (Some p))
+   match precision_of_query (oc_query c), oc_model_rows c with
+   | Some p, Some rows => negb ((oc_status c =? 204) && oz_eqb (oc_obs_prec c) (Some p) && zn_eqb rows (oc_rows c))
+   | _, _ => negb ((oc_status c =? 400) && oz_eqb (oc_obs_prec c) None && zn_eqb [] (oc_rows c))
    end).
-(* the written classes: a header written from a number must give that number; a precision written as one of the units
-   must give that unit and the request must be accepted; a refused request stores nothing *)
+(* the written classes: a header written from a number gives that number; a precision written as one of the units gives
+   that unit, the request is accepted and stores one row per line with the line's timestamp in that unit and the TTL of
+   the header (or of the line's own __ttl_days__ tag); a request that is not accepted stores nothing *)
 Definition oc_spec_violation (c : ocase) : bool :=
   match oc_want_ttl c with Some n => negb (N.eqb n (oc_obs_ttl c)) | None => false end ||
   (oc_influx c &&
-   match oc_want_prec c with
-   | Some (Some p) => negb ((oc_status c =? 204) && oz_eqb (oc_obs_prec c) (Some p))
-   | _ => false
-   end) ||
-  (oc_influx c && negb ((200 <=? oc_status c) && (oc_status c <? 300)) && negb (oc_stored c =? 0)).
+   (match oc_want_prec c with Some p => negb (accepted c && oz_eqb (oc_obs_prec c) (Some p)) | None => false end ||
+    match oc_want_rows c with Some rows => negb (accepted c && zn_eqb rows (oc_rows c)) | None => false end ||
+    (negb (accepted c) && negb (zn_eqb [] (oc_rows c))))).
 Definition oc_check_all (cs : list ocase) : list Z * list Z :=
   (map oc_id (filter oc_mismatch cs), map oc_id (filter oc_spec_violation cs)).
